@@ -2,7 +2,7 @@
 import trace as TR
 import exec as E
 from poly import Poly, ONE, ZERO, ge0, sym_int
-from values import Agg
+from values import Agg, SymV
 from rules import common as C
 
 LEVEL = "proof"
@@ -69,3 +69,61 @@ def run(R):
         R.ob("C09c-no-wrap", "%s|overflow-asserts-discharged" % tag, res.discharged >= 2,
              "expected the two u32 additions of the offset check to be present and discharged by type ranges (found %d)" % res.discharged)
         R.floor("%s paths" % tag, n_paths, 7)
+        # (d) the configuration that init validates is the one the caller asked for: every Builder setter stores its
+        # argument(s) in the like-named option and leaves everything else alone; new() starts from the full framebuffer
+        setters = {"display_size": ["width", "height"], "display_offset": ["x", "y"], "orientation": ["orientation"],
+                   "color_order": ["color_order"], "invert_colors": ["color_inversion"], "refresh_order": ["refresh_order"]}
+        opt_fields = [f["name"] for f in F.adts[C.OPTS]["variants"][0]["fields"]]
+        for sname in setters:
+            recs = F.inherent_method(C.BUILDER, sname)
+            if len(recs) != 1:
+                R.notes.append("builder setter %s not found (%d)" % (sname, len(recs)))
+                continue
+            ex = R.executor(F)
+            r = C.run_pure(R, ex, recs[0], "C09d", "%s|Builder::%s" % (cfg, sname))
+            if r is None:
+                continue
+            b = r[0]
+            okb = isinstance(b, Agg) and b.name == C.BUILDER
+            changed = []
+            target_ok = False
+            if okb:
+                bf = [f["name"] for f in F.adts[C.BUILDER]["variants"][0]["fields"]]
+                for i, fn in enumerate(bf):
+                    if fn == "options":
+                        o_ = b.fields[i]
+                        if isinstance(o_, SymV):
+                            o_ = ex.expand_sym(o_)
+                        for j, on in enumerate(opt_fields):
+                            cur = o_.fields[j]
+                            ini = ex.mk_sym(F.adts[C.OPTS]["variants"][0]["fields"][j]["ty"], "self.options." + on)
+                            same = repr(cur) == repr(ini) or (isinstance(ini, SymV) and repr(cur) == repr(ex.expand_sym(ini) or ini))
+                            if not same:
+                                changed.append(on)
+                                if on == sname:
+                                    # value must be built from the parameters, in order
+                                    params = [d["name"] for d in sorted([d for d in recs[0]["body"]["debug"] if d.get("arg") is not None and not d["place"]["proj"]],
+                                                                         key=lambda d: d["place"]["local"])][1:]
+                                    txt = repr(cur)
+                                    pos = [txt.find(pn) for pn in params]
+                                    target_ok = all(p_ >= 0 for p_ in pos) and pos == sorted(pos) and "self.options" not in txt
+                    else:
+                        ini = "<self.%s:" % fn
+                        if not repr(b.fields[i]).startswith(ini):
+                            changed.append(fn)
+            R.ob("C09d-builder-setter", "%s|Builder::%s" % (cfg, sname), okb and changed == [sname] and target_ok,
+                 "Builder::%s must store exactly its argument(s) in options.%s and change nothing else; changed %s, value ok: %s"
+                 % (sname, sname, changed, target_ok), sample={"setter": sname, "changed": changed})
+        recs = F.inherent_method(C.BUILDER, "new")
+        if len(recs) == 1:
+            ex = R.executor(F)
+            r = C.run_pure(R, ex, recs[0], "C09d", "%s|Builder::new" % cfg)
+            if r is not None and isinstance(r[0], Agg):
+                bf = [f["name"] for f in F.adts[C.BUILDER]["variants"][0]["fields"]]
+                o_ = r[0].fields[bf.index("options")]
+                d_ = {n: o_.fields[j] for j, n in enumerate(opt_fields)} if isinstance(o_, Agg) else {}
+                ok = bool(d_) and repr(d_["display_size"]) == "(u16(<MODEL>::FRAMEBUFFER_SIZE.0), u16(<MODEL>::FRAMEBUFFER_SIZE.1))" \
+                    and repr(d_["display_offset"]) == "(u16(0), u16(0))" and repr(r[0].fields[bf.index("rst")]) == "Option::v0()"
+                R.ob("C09d-builder-default", "%s|Builder::new" % cfg, ok,
+                     "Builder::new must start from the whole framebuffer at offset (0,0) without a reset pin; got options %r" % (o_,))
+
